@@ -539,8 +539,11 @@ func c05Run(r *fw.R, d c05Desc) {
 				useWriter := wr.Intn(2) == 0
 				cuts := chunking{Kind: "random"}.cuts(wr, len(p))
 				op.call = tick()
-				_, err := writeMessage(writerCtx, c, websocket.MessageBinary, p, useWriter, cuts)
+				mod, err := writeMessage(writerCtx, c, websocket.MessageBinary, p, useWriter, cuts)
 				op.ret = tick()
+				if mod != "" {
+					r.Violate("C05/caller-buffer-modified", fmt.Sprintf("%s: writer %d message %d (%d bytes): %s", c05What(d), w, i, len(p), mod), "")
+				}
 				op.err = err
 				op.returned = true
 				if err != nil {
